@@ -447,4 +447,36 @@ Definition ibig_bitxor_asis (o : bown) (s0 : sign) (r0 : brepr) (s1 : sign) (r1 
   | Negative, Negative => bvalue (repr_bitxor VV (sub_one_typed r0) (sub_one_typed r1))
   end.
 
+(* ------------------------------------------------------------------ bits.rs: trailing ones *)
+
+(** trailing_zeros_large_shifted_by_one: trailing zeros of the number shifted right by one bit.
+    When the rest of word 0 is empty the scan restarts at word 1. *)
+Definition trailing_zeros_large_shifted_by_one (ws : list Z) : Z :=
+  match ws with
+  | [] => 0
+  | x :: r =>
+      let zero_begin := word_tz w (Z.shiftr x 1) in
+      if zero_begin <? w - 1 then zero_begin else trailing_zeros_large w r + zero_begin - 1
+  end.
+
+(** TypedReprRef::trailing_ones (DoubleWord::trailing_ones for the inline form) *)
+Definition repr_trailing_ones (r : brepr) : Z :=
+  match r with
+  | BSmall d => match trailing_ones_spec d with Some k => k | None => 0 end
+  | BLarge ws => trailing_ones_large w ws
+  end.
+
+(** TypedReprRef::trailing_ones_neg: number of trailing ones of -self *)
+Definition repr_trailing_ones_neg (r : brepr) : option Z :=
+  match r with
+  | BSmall d => if d =? 0 then Some 0 else if d =? 1 then None
+                else trailing_ones_spec ((dword_not d + 1) mod (B * B))
+  | BLarge ws => if Z.land (nth 0 ws 0) 1 =? 0 then Some 0
+                 else Some (trailing_zeros_large_shifted_by_one ws + 1)
+  end.
+
+(** IBig::trailing_ones *)
+Definition ibig_trailing_ones (s : sign) (r : brepr) : option Z :=
+  match s with Positive => Some (repr_trailing_ones r) | Negative => repr_trailing_ones_neg r end.
+
 End BitsKernels.
